@@ -248,7 +248,10 @@ int main (int argc, char *argv[]) {
             perror("Unable to seek to beginning of source file");
             exit(1);
         }
-        write(dst_fd, "\0ZHR1", 5);
+        if(write(dst_fd, "\0ZHR1", 5) != 5) {
+            LOG_ERROR("Error writing to %s\n", out_name);
+            goto error2;
+        }
         for(ssize_t i=5; i<header_size + dict_size; i+=BUF_SIZE) {
             ssize_t write_size = i + BUF_SIZE < header_size + dict_size ? BUF_SIZE : header_size + dict_size - i;
             ssize_t read_size = read(src_fd, data, write_size);
